@@ -154,9 +154,21 @@ Theorem run_never_split : forall es g1 g2 gs, group es = g1 :: g2 :: gs -> e_fp 
 Proof. exact group_adjacent. Qed.
 Print Assumptions run_never_split.
 
-Theorem one_object_per_stream : forall es, fps_contiguous (map e_fp es) -> NoDup (heads es).
+Theorem one_object_per_stream_partial : forall es, fps_contiguous (map e_fp es) -> NoDup (heads es).
 Proof. exact one_object_per_fingerprint. Qed.
-Print Assumptions one_object_per_stream.
+Print Assumptions one_object_per_stream_partial.
+(* the unconditional statement is false: rows of one fingerprint separated by another one give two
+   objects (an upstream stage that regroups rows in windows can deliver that) *)
+Theorem one_object_per_stream_refuted : exists es, ~ NoDup (heads es).
+Proof. eexists. exact heads_split_example. Qed.
+Print Assumptions one_object_per_stream_refuted.
+
+(* timestamps of log lines (fmt %d of an int64) are rendered without loss *)
+Theorem timestamp_text_lossless : forall z,
+  match DecimalString.NilZero.int_of_string (fmt_d z) with Some d => Z.of_int d = z | None => False end.
+Proof. exact fmt_d_lossless. Qed.
+Print Assumptions timestamp_text_lossless.
+
 Example contiguous_met : fps_contiguous [0; 0; 7]%N.
 Proof.
   intros a f b c E x Hx. destruct a as [|a0 a].
